@@ -347,6 +347,12 @@ func (ef *errflow) regionProblems(f *ssa.Function, S *ssa.BasicBlock, C map[ssa.
 		}
 		if !inRegion(b) {
 			// rejoin
+			if errIdx < 0 && rolledBack && ef.sync != nil && ef.c.onlyCalledFromFamily(f, ef.sync) && onlyReturns(b) {
+				// the commit tail split off from the sync root: after rolling back it reports "go on" and the root retries
+				// the block (I3), exactly as when the code sat in the root
+				idioms["I3"] = true
+				return
+			}
 			if from != nil && errIdx >= 0 && ef.mergedReturn(from, b, errIdx, C, S) {
 				idioms["I1"] = true // `failed = err; break` ... `return failed`: the error leaves through a merged return
 				return
@@ -424,13 +430,25 @@ func (ef *errflow) regionProblems(f *ssa.Function, S *ssa.BasicBlock, C map[ssa.
 func (ef *errflow) mergedReturn(from, b *ssa.BasicBlock, errIdx int, C map[ssa.Value]bool, S *ssa.BasicBlock) bool {
 	cur, prev := b, from
 	var edgeVal = map[*ssa.Phi]ssa.Value{}
-	for hop := 0; hop < 4; hop++ {
+	isErr := func(v ssa.Value) bool {
+		switch ef.classifyRet(v, C, S) {
+		case "carrier", "sentinel":
+			return true
+		case "fresh":
+			// made inside the error branch: counts when it cannot be nil (fmt.Errorf, a wrapped error) - the result of
+			// another attempt at the failed call can be nil and would drop the error
+			return ef.c.errNonNilAt(v, from, 0)
+		}
+		return false
+	}
+	for hop := 0; hop < 5; hop++ {
 		idx := -1
 		for i, p := range cur.Preds {
 			if p == prev {
 				idx = i
 			}
 		}
+		var next *ssa.BasicBlock
 		for _, ins := range cur.Instrs {
 			switch x := ins.(type) {
 			case *ssa.Phi:
@@ -444,26 +462,47 @@ func (ef *errflow) mergedReturn(from, b *ssa.BasicBlock, errIdx int, C map[ssa.V
 					edgeVal[x] = v
 				}
 			case *ssa.DebugRef, *ssa.RunDefers:
+			case *ssa.BinOp:
+				// the test of the merged variable itself (evaluated at the If below)
 			case *ssa.Return:
 				op := resolveSpill(x.Results[errIdx])
 				if ph, ok := op.(*ssa.Phi); ok {
 					if v, ok := edgeVal[ph]; ok {
-						switch ef.classifyRet(v, C, S) {
-						case "carrier", "fresh", "sentinel":
-							return true
-						}
+						return isErr(v)
 					}
 				}
 				return false
 			case *ssa.Jump:
+				next = cur.Succs[0]
+			case *ssa.If:
+				// `if failed != nil { return failed }` after the loop: on this way the merged variable holds the error
+				bo, ok := x.Cond.(*ssa.BinOp)
+				if !ok || (bo.Op != token.NEQ && bo.Op != token.EQL) {
+					return false
+				}
+				var ph *ssa.Phi
+				if p, ok := bo.X.(*ssa.Phi); ok && isNilConst(bo.Y) {
+					ph = p
+				} else if p, ok := bo.Y.(*ssa.Phi); ok && isNilConst(bo.X) {
+					ph = p
+				}
+				v, had := edgeVal[ph]
+				if ph == nil || !had || !isErr(v) {
+					return false
+				}
+				if bo.Op == token.NEQ {
+					next = cur.Succs[0]
+				} else {
+					next = cur.Succs[1]
+				}
 			default:
-				return false // the merged block does more than return
+				return false // the merged block does more than test and return
 			}
 		}
-		if len(cur.Succs) != 1 {
+		if next == nil {
 			return false
 		}
-		prev, cur = cur, cur.Succs[0]
+		prev, cur = cur, next
 	}
 	return false
 }
@@ -692,6 +731,25 @@ func (ef *errflow) analyse(f *ssa.Function, ci ssa.CallInstruction, site *ErrSit
 				}
 			}
 		}
+		// `failed = f(); if failed != nil { break }`: the non-nil edge runs straight into a merge block where the value
+		// becomes the merged variable - it is handled where that variable is tested (its own tests are in this list)
+		if !dead && len(t.S.Preds) > 1 {
+			for _, ins := range t.S.Instrs {
+				ph, ok := ins.(*ssa.Phi)
+				if !ok {
+					break
+				}
+				for i, p := range t.S.Preds {
+					if p == t.iff.Block() && C[ph.Edges[i]] && C[ph] {
+						for _, u := range tests {
+							if u.v == ssa.Value(ph) {
+								dead = true
+							}
+						}
+					}
+				}
+			}
+		}
 		if dead || tested[t.S] {
 			continue
 		}
@@ -851,7 +909,7 @@ func (ef *errflow) rowsIteration(f *ssa.Function, r *Report, rule string) {
 		cons := fmt.Sprintf("%s rows.Next %s", fname(f), ord(n))
 		var errCalls []ssa.CallInstruction
 		allInstrs(f, func(j ssa.Instruction) {
-			if cj, ok := j.(ssa.CallInstruction); ok && calleeName(cj.Common()) == "database/sql.Rows.Err" && cj.Common().Args[0] == rows {
+			if cj, ok := j.(ssa.CallInstruction); ok && calleeName(cj.Common()) == "database/sql.Rows.Err" && sameVarValue(cj.Common().Args[0], rows) {
 				errCalls = append(errCalls, cj)
 			}
 		})
@@ -973,4 +1031,25 @@ func forwardedCallees(ci ssa.CallInstruction) []string {
 		return []string{calleeName(ci.Common())}
 	}
 	return out
+}
+
+// onlyReturns: from b the function does nothing but return (no calls on the way).
+func onlyReturns(b *ssa.BasicBlock) bool {
+	cur := b
+	for hop := 0; hop < 4; hop++ {
+		for _, ins := range cur.Instrs {
+			switch ins.(type) {
+			case *ssa.Phi, *ssa.DebugRef, *ssa.Jump, *ssa.RunDefers:
+			case *ssa.Return:
+				return true
+			default:
+				return false
+			}
+		}
+		if len(cur.Succs) != 1 {
+			return false
+		}
+		cur = cur.Succs[0]
+	}
+	return false
 }
